@@ -346,4 +346,115 @@ theorem filter_length_lt {α : Type} (p q : α → Bool) (l : List α)
         · simp [hq, hp]; omega
         · simp [hq, hp]; exact ih'
 
+/-! ### the loops as written compute the forms used in the proofs -/
+
+theorem searchScan_eq (rule : Rule) : ∀ (es acc : List Entry),
+    searchScan rule es acc =
+      match es.find? (fun e => e.1.dst == rule.dst && e.1.src == rule.src) with
+      | some e => .inl e.2
+      | none => .inr (acc ++ es.filter (keyMatches rule))
+  | [], acc => by simp [searchScan]
+  | e :: es, acc => by
+    simp only [searchScan, List.find?_cons]
+    by_cases hx : (e.1.dst == rule.dst && e.1.src == rule.src) = true
+    · simp [hx]
+    · simp only [hx, Bool.false_eq_true, if_false]
+      by_cases hk : keyMatches rule e = true
+      · simp [hk, searchScan_eq rule es]
+      · simp [hk, searchScan_eq rule es]
+
+theorem pickScan_eq (rule : Rule) : ∀ (ks fromM toM : List Entry),
+    pickScan rule ks fromM toM =
+      match ks.find? (fun e => ((afterSlash rule.src).isSome && e.1.src == rule.src) &&
+          ((afterSlash rule.dst).isSome && e.1.dst == rule.dst)) with
+      | some e => .inl e.2
+      | none => .inr (fromM ++ ks.filter (fun e => (afterSlash rule.src).isSome && e.1.src == rule.src),
+                      toM ++ ks.filter (fun e => (afterSlash rule.dst).isSome && e.1.dst == rule.dst))
+  | [], fromM, toM => by simp [pickScan]
+  | k :: ks, fromM, toM => by
+    simp only [pickScan, List.find?_cons]
+    by_cases hf : ((afterSlash rule.src).isSome && k.1.src == rule.src) = true <;>
+    by_cases ht : ((afterSlash rule.dst).isSome && k.1.dst == rule.dst) = true <;>
+    simp [hf, ht, pickScan_eq rule ks]
+
+theorem searchPathLoop_eq (entries : List Entry) (rule : Rule) :
+    searchPathLoop entries rule = searchPath entries rule := by
+  unfold searchPathLoop searchPath
+  rw [searchScan_eq]
+  cases hfind : entries.find? (fun e => e.1.dst == rule.dst && e.1.src == rule.src) with
+  | some e => rfl
+  | none =>
+    simp only [List.nil_append]
+    match hks : entries.filter (keyMatches rule) with
+    | [] => simp [pickPath]
+    | [k] => simp [pickPath]
+    | k0 :: k1 :: rest =>
+      simp only [pickPath]
+      rw [pickScan_eq]
+      cases (k0 :: k1 :: rest).find? (fun e => ((afterSlash rule.src).isSome && e.1.src == rule.src) &&
+          ((afterSlash rule.dst).isSome && e.1.dst == rule.dst)) with
+      | some e => rfl
+      | none => simp only [List.nil_append]
+
+theorem mergeAll_append (acc l1 l2 : List Entry) :
+    mergeAll acc (l1 ++ l2) = mergeAll (mergeAll acc l1) l2 := by
+  simp [mergeAll, List.foldl_append]
+
+theorem mergeAll_flatMap {α : Type} (f : α → List Entry) : ∀ (l : List α) (acc : List Entry),
+    mergeAll acc (l.flatMap f) = l.foldl (fun acc x => mergeAll acc (f x)) acc
+  | [], _ => rfl
+  | x :: xs, acc => by
+    simp only [List.flatMap_cons, mergeAll_append, List.foldl_cons]
+    exact mergeAll_flatMap f xs _
+
+theorem mergeAll_filterMap {α : Type} (g : α → Option Entry) : ∀ (l : List α) (acc : List Entry),
+    mergeAll acc (l.filterMap g) =
+      l.foldl (fun acc x => match g x with
+        | some y => cacheSet acc y.1 y.2
+        | none => acc) acc
+  | [], _ => rfl
+  | x :: xs, acc => by
+    simp only [List.filterMap_cons, List.foldl_cons]
+    cases hg : g x with
+    | none => simp only; exact mergeAll_filterMap g xs acc
+    | some y =>
+      simp only
+      rw [show mergeAll acc (y :: xs.filterMap g) = mergeAll (cacheSet acc y.1 y.2) (xs.filterMap g) from rfl]
+      exact mergeAll_filterMap g xs _
+
+/-- the `newPaths` map filled by the nested ranges = the assignments of the pass, merged -/
+theorem passLoop_eq (ord : Order) (n : Nat) (c : Chain) (rule : Rule) :
+    passLoop ord n c rule = mergeAll [] (candidates ord n c rule) := by
+  unfold passLoop candidates
+  rw [mergeAll_flatMap]
+  congr 1
+  funext newPaths e
+  split
+  · rfl
+  · rw [mergeAll_filterMap]
+    congr 1
+    funext np nx
+    split
+    · rfl
+    · simp only [searchPathLoop_eq]
+      split <;> rfl
+
+theorem findLoopCode_eq (ord : Order) (rule : Rule) : ∀ (n : Nat) (c : Chain),
+    findLoopCode ord rule n c = findLoop ord rule n c
+  | 0, _ => rfl
+  | n + 1, c => by
+    simp only [findLoopCode, findLoop, searchPathLoop_eq, passLoop_eq]
+    split
+    · rfl
+    · split
+      · rfl
+      · exact findLoopCode_eq ord rule n _
+
+/-- `FindConversionChain` as written = the form the theorems are about -/
+theorem findCode_eq (ord : Order) (c : Chain) (rule : Rule) : findCode ord c rule = find ord c rule := by
+  unfold findCode find
+  split
+  · rfl
+  · exact findLoopCode_eq ord rule _ c
+
 end ShellOp.Conversion
